@@ -163,6 +163,13 @@ def check_witness(case):
     else:
         ok = isinstance(dec, tuple) and len(dec) == 2 and isinstance(dec[0], (list, tuple)) and list(dec[0]) == [x.hex() for x in items] and dec[1] == trailing
         f.expect(ok, f"witness-deser/ne-items/{big}", repr(dec)[:200])
+    # parse=True ("parse first witness script instead of decoding"): the stack's own bytes and what follows them
+    par = attempt(bits.script.decode_script, want + trailing, witness=True, parse=True)
+    if raised(par):
+        f.add(f"witness-parse/raises-{par.kind}/{big}", par)
+    else:
+        ok = isinstance(par, tuple) and len(par) == 2 and par[0] == want and par[1] == trailing
+        f.expect(ok, f"witness-parse/ne-stack-bytes/{big}", repr(par)[:200])
     return cls, f
 
 
